@@ -13,31 +13,38 @@ package rpc
 //@   ensures def: r == (mTime + qTick + machTick) % 256
 
 // Snap: shape invariant of a tracer snapshot, derived from the construction
-// sites (sourceTracer.TransitionEnd / calcTrackedStates).
-//@ pred Snap(d *tracerData, syncSchema bool) :=
-//@      len(d.tracked) == len(d.trackedIdxs) && len(d.mTime) < 65536
-//@   && (forall k, l int :: 0 <= k && k < l && l < len(d.trackedIdxs) ==> d.trackedIdxs[k] < d.trackedIdxs[l])
-//@   && (forall k int :: 0 <= k && k < len(d.trackedIdxs) ==> 0 <= d.trackedIdxs[k])
-//@   && ( syncSchema ==> forall k int :: 0 <= k && k < len(d.trackedIdxs) ==> d.trackedIdxs[k] < len(d.mTime))
-//@   && (!syncSchema ==> len(d.mTime) == len(d.tracked))
+// sites (sourceTracer.TransitionEnd / calcTrackedStates). Value-based core
+// (SnapV, PV, PrevV, DeepUpdV, ...) with pointer-based wrappers.
+//@ pred SnapV(m am.Time, tracked am.S, idxs []int, syncSchema bool) :=
+//@      len(tracked) == len(idxs) && len(m) < 65536
+//@   && (forall k, l int :: 0 <= k && k < l && l < len(idxs) ==> idxs[k] < idxs[l])
+//@   && (forall k int :: 0 <= k && k < len(idxs) ==> 0 <= idxs[k])
+//@   && ( syncSchema ==> forall k int :: 0 <= k && k < len(idxs) ==> idxs[k] < len(m))
+//@   && (!syncSchema ==> len(m) == len(tracked))
+//@ pred Snap(d *tracerData, syncSchema bool) := SnapV(d.mTime, d.tracked, d.trackedIdxs, syncSchema)
 
 // P: the index under which tracked state k travels on the wire.
-//@ fn P(d *tracerData, syncSchema bool, k int) int := syncSchema ? d.trackedIdxs[k] : k
+//@ fn PV(idxs []int, syncSchema bool, k int) int := syncSchema ? idxs[k] : k
+//@ fn P(d *tracerData, syncSchema bool, k int) int := PV(d.trackedIdxs, syncSchema, k)
 // Prev: the tick the client holds for wire index x (absent = 0).
-//@ fn Prev(lp *tracerData, x int) int := (isnil(lp.mTime) || x >= len(lp.mTime)) ? 0 : lp.mTime[x]
+//@ fn PrevV(lm am.Time, x int) int := (isnil(lm) || x >= len(lm)) ? 0 : lm[x]
+//@ fn Prev(lp *tracerData, x int) int := PrevV(lp.mTime, x)
 // Flip: the parity the client holds for wire index x differs from the new one.
-//@ pred Flip(lp *tracerData, d *tracerData, x int) := (isnil(lp.mTime) || x >= len(lp.mTime)) ? odd(d.mTime[x]) : (odd(lp.mTime[x]) != odd(d.mTime[x]))
+//@ pred FlipV(lm am.Time, m am.Time, x int) := (isnil(lm) || x >= len(lm)) ? odd(m[x]) : (odd(lm[x]) != odd(m[x]))
+//@ pred Flip(lp *tracerData, d *tracerData, x int) := FlipV(lp.mTime, d.mTime, x)
 
-//@ pred DeepUpd(syncSchema bool, data *tracerData, lastPush *tracerData, indexes []uint16, ticks []uint32) :=
-//@      len(indexes) == len(ticks) && len(indexes) <= len(data.tracked)
+//@ opred DeepUpdV(syncSchema bool, m am.Time, tracked am.S, idxs []int, lm am.Time, indexes []uint16, ticks []uint32) :=
+//@      len(indexes) == len(ticks) && len(indexes) <= len(tracked)
 //@   && (forall i, j int :: 0 <= i && i < j && j < len(indexes) ==> indexes[i] < indexes[j])
 //@   && (forall j int :: 0 <= j && j < len(indexes) ==>
-//@          (exists k int :: 0 <= k && k < len(data.tracked) && indexes[j] == P(data, syncSchema, k))
-//@          && Prev(lastPush, indexes[j]) != data.mTime[indexes[j]]
-//@          && ticks[j] == u32(data.mTime[indexes[j]] - Prev(lastPush, indexes[j])))
-//@   && (forall k int :: 0 <= k && k < len(data.tracked) &&
-//@          Prev(lastPush, P(data, syncSchema, k)) != data.mTime[P(data, syncSchema, k)] ==>
-//@          exists j int :: 0 <= j && j < len(indexes) && indexes[j] == P(data, syncSchema, k))
+//@          (exists k int :: 0 <= k && k < len(tracked) && indexes[j] == PV(idxs, syncSchema, k))
+//@          && PrevV(lm, indexes[j]) != m[indexes[j]]
+//@          && ticks[j] == u32(m[indexes[j]] - PrevV(lm, indexes[j])))
+//@   && (forall k int :: 0 <= k && k < len(tracked) &&
+//@          PrevV(lm, PV(idxs, syncSchema, k)) != m[PV(idxs, syncSchema, k)] ==>
+//@          exists j int :: 0 <= j && j < len(indexes) && indexes[j] == PV(idxs, syncSchema, k))
+//@ pred DeepUpd(syncSchema bool, data *tracerData, lastPush *tracerData, indexes []uint16, ticks []uint32) :=
+//@      DeepUpdV(syncSchema, data.mTime, data.tracked, data.trackedIdxs, lastPush.mTime, indexes, ticks)
 
 //@ func genDeepUpdate(syncSchema bool, data, lastPush *tracerData) (indexes []uint16, ticks []uint32)
 //@   props C10
@@ -96,6 +103,29 @@ package rpc
 //@   ensures  checksum: u.Checksum == data.checksum
 //@   ensures  deep:     !shallowClocks ==> DeepUpd(syncSchema, data, lastPush, u.Indexes, u.Ticks)
 //@   ensures  shallow:   shallowClocks ==> ShallowUpd(syncSchema, data, lastPush, u.Indexes, u.Ticks)
+
+// PrevD: the snapshot the i-th per-mutation update is diffed against.
+//@ fn PrevD(muts []tracerMutation, prev tracerData, i int) tracerData := i == 0 ? prev : muts[i - 1].data
+// UpdOK: u is the deep update from snapshot p to snapshot d.
+//@ pred UpdOK(syncSchema bool, u MsgSrvUpdate, d tracerData, p tracerData) :=
+//@      u.QueueTick == u16(d.queueTick - p.queueTick) && u.MachTick == u8(d.machTick - p.machTick) && u.Checksum == d.checksum
+//@   && DeepUpdV(syncSchema, d.mTime, d.tracked, d.trackedIdxs, p.mTime, u.Indexes, u.Ticks)
+
+//@ func calcUpdateMutations(syncSchema bool, muts []tracerMutation, prev *tracerData) (ret *MsgSrvUpdateMuts)
+//@   props C10
+//@   abstracts &muts[i] and &mut.data are modelled as copies (read-only use in this function)
+//@   requires nn:    prev != nil
+//@   requires snaps: forall i int :: 0 <= i && i < len(muts) ==> SnapV(muts[i].data.mTime, muts[i].data.tracked, muts[i].data.trackedIdxs, syncSchema)
+//@   requires chain: forall i int :: 0 <= i && i < len(muts) ==> isnil(PrevD(muts, *prev, i).mTime) || len(PrevD(muts, *prev, i).mTime) <= len(muts[i].data.mTime)
+//@   ensures  nn:    ret != nil && fresh(ret)
+//@   ensures  len:   len(ret.Updates) == len(muts) && len(ret.MutationType) == len(muts) && len(ret.CalledStates) == len(muts)
+//@   ensures  each:  forall i int :: 0 <= i && i < len(muts) ==> UpdOK(syncSchema, ret.Updates[i], muts[i].data, PrevD(muts, old(*prev), i))
+//@   ensures  types: forall i int :: 0 <= i && i < len(muts) ==> ret.MutationType[i] == muts[i].mutType
+//@   loop 1 invariant len:   len(ret.Updates) == i && len(ret.MutationType) == i && len(ret.CalledStates) == i && prev != nil
+//@   loop 1 invariant prev:  *prev == PrevD(muts, old(*prev), i)
+//@   loop 1 invariant each:  forall j int :: 0 <= j && j < i ==> UpdOK(syncSchema, ret.Updates[j], muts[j].data, PrevD(muts, old(*prev), j))
+//@   loop 1 invariant types: forall j int :: 0 <= j && j < i ==> ret.MutationType[j] == muts[j].mutType
+//@   loop 2 invariant len:   len(called) == len(mut.calledIdxs)
 
 // SumAt: total of the ticks addressed to wire index x among the first n entries.
 //@ recfn SumAt(I []uint16, T []uint32, x int, n int) int := n <= 0 ? 0 : SumAt(I, T, x, n - 1) + (I[n - 1] == x ? T[n - 1] : 0)
